@@ -105,7 +105,7 @@ def jsonable(x):
     if isinstance(x, (list, tuple)):
         return [jsonable(v) for v in x]
     if isinstance(x, float):
-        return "inf" if x == float("inf") else fs(x)
+        return "inf" if x == float("inf") else x
     try:
         import numpy as np
         if isinstance(x, np.generic):
